@@ -8,7 +8,8 @@ from common import check_depths, fail, make_sd, net_info, run_history, run_step,
 from oracle import is_subspace, skey
 
 BOUND = ("networks with <= 6(7) variables (exhaustive 1-variable, sampled 2-variable, seeded random) and hand-built networks with <= 9 variables incl. multi-path DAGs (D5, multipath, "
-         "deep, unions); depth / ids / len after EVERY call of a seeded history of <= 6 calls (all strategies, limits, skipping); find_node on every node space, on "
+         "deep, unions, a 6-variable network with nested shortcut edges and seeded 'latch DAG' networks in which every variable is a set-/reset-latch) under depth-first histories "
+         "(expand_dfs with and without limits, dfs below single children in both orders followed by a full expansion, manual depth-first node_successors sequences); depth / ids / len after EVERY call of a seeded history of <= 6 calls (all strategies, limits, skipping); find_node on every node space, on "
          "sub- and super-spaces, on seeded random spaces and on unknown variables; is_subgraph / is_isomorphic between diagrams of the same network under two "
          "histories and of 1-variable-mutated networks (incl. unexpanded roots, D6), against set inclusion of node spaces and edges; summary() after build() parsed "
          "and compared with the brute-force attractors and their minimal-trap / motif-avoidant classification")
@@ -18,7 +19,20 @@ CASE_TIMEOUT = 60.0
 OPS = families.PLAIN_OPS + families.SKIP_OPS + ["block", "seeds"]
 
 
+def shape_cases(seed, tier):
+    """Multi-path DAG networks x histories in which a longer path to an already expanded sub-diagram is discovered late."""
+    for k, (name, bnet) in enumerate(families.multipath_nets(seed, tier)):
+        rng = random.Random(f"{seed}-{name}-c20-dfs")
+        hs = families.depth_first_histories(rng)
+        for h in (hs if name in families.MULTIPATH else [hs[0], hs[-1], hs[1 + k % (len(hs) - 2)]]):
+            yield {"net": name, "bnet": bnet, "other": None, "h1": h, "h2": []}
+
+
 def cases(seed, tier):
+    yield from families.interleave((shape_cases(seed, tier), 1), (general_cases(seed, tier), 3))
+
+
+def general_cases(seed, tier):
     yield {"net": "D6", "bnet": "A, true", "other": "A, false", "h1": [], "h2": []}
     for name in ("D5", "multipath", "deep", "source_chain", "maa_latch"):  # DAGs with paths of different lengths to one node
         for h in ([["bfs", None, None, None]], [["dfs", None, None, None]], [["block", True, None, True, False]], [["block", False, None, False, False]], [["scc", True]],
